@@ -208,6 +208,60 @@ def r4(ctx):
     ctx.floor(R, 3)
 
 
+def r5(ctx):
+    R = "C20-R5"
+    ctx.rule(R, "Barrier::wait hands every report it takes out of the channel to the caller: one receive per call (after the receive "
+                "completes no path leads back to it), and the Some path builds the Triggered handle from the received pair. Barrier::build "
+                "gives every barrier a fresh id (Uuid::new_v4 or a counter that only grows), never a value derived from the current size "
+                "of the registry, so BarrierRepo::drop's `retain(id != ..)` can only ever remove the barrier being dropped")
+    wid = "turmoil::barriers::Barrier::wait"
+    wb = ctx.body(R, wid)
+    if wb:
+        for fb in ctx.w.family(wid):
+            rc = [bb for bb, t in fb.calls(re.compile(r"UnboundedReceiver::recv$|Receiver::recv$"))]
+            if not rc:
+                continue
+            ready = [bb for bb, i, s in fb.all_stmts() if s["r"]["k"] == "use" and (op_place(s["r"]["o"]) or {}).get("p") and
+                     any(isinstance(e, dict) and e.get("v") == "Ready" for e in op_place(s["r"]["o"])["p"])]
+            again = [r_ for r_ in ready if any(x in fb.reachable(r_) for x in rc)]
+            trig = [bb for bb, i, s in fb.all_stmts() if s["r"]["k"] == "agg" and s["r"].get("adt") == "turmoil::barriers::Triggered"]
+            ok = len(rc) == 1 and bool(ready) and not again and bool(trig)
+            ctx.inst(R, "wait:one-receive-per-call", ok, fb.term(rc[0])["s"], "a received report always goes to the caller" if ok else
+                     "Barrier::wait can take a report out of the channel and go back for another one: the first report is never shown to the test "
+                     "(a trigger that matched is lost / reported out of order)")
+    bid = "turmoil::barriers::Barrier::build"
+    bb_ = ctx.body(R, bid)
+    if bb_:
+        found = False
+        for fb in ctx.w.family(bid):
+            for x, i, s in fb.all_stmts():
+                r = s["r"]
+                if r["k"] == "agg" and r.get("adt") == "turmoil::barriers::BarrierState":
+                    m = dict(zip(r["fields"], r["ops"]))
+                    at = Slicer(ctx.w, into_callees=2).atoms(fb, m["id"])
+                    found = True
+                    fresh = any(re.search(r"call:uuid::Uuid::new_v\d$", a) for a in at)
+                    sized = [a for a in at if re.search(r"call:.*::(len|count|capacity)$", a)]
+                    if not fresh:
+                        # a counter that only ever grows is as good as a fresh UUID
+                        for a in at:
+                            if not a.startswith("field:turmoil::barriers::"):
+                                continue
+                            F = a[len("field:"):]
+                            wr = [(b2, s2) for b2 in ctx.w.bodies.values() for _, _, s2 in b2.all_stmts()
+                                  if place_last_field(s2["p"]) == F and s2["r"]["k"] == "use" and b2.kind != "Ctor"]
+                            lins = [linear(b2, s2["r"]["o"]) for b2, s2 in wr]
+                            if wr and all(l and l[0] == ("field", F) and l[1] > 0 for l in lins):
+                                fresh = True
+                    ok = fresh and not sized
+                    ctx.inst(R, "build:fresh-id", ok, s["s"], "barrier id is a fresh UUID" if ok else
+                             f"a barrier's id is derived from {sorted(a for a in at if a.startswith('call:'))[:4]}, not generated fresh: after a barrier is dropped "
+                             "a new one can receive the id of a live one, and dropping either removes both from the registry")
+        if not found and ctx.strict:
+            ctx.bad(R, "build:fresh-id", bb_.span, "BarrierState construction not found in Barrier::build")
+    ctx.floor(R, 2)
+
+
 def run(ctx):
     global ctx_w
     ctx_w = ctx.w
@@ -218,3 +272,4 @@ def run(ctx):
     r2(ctx)
     r3(ctx)
     r4(ctx)
+    r5(ctx)
